@@ -19,6 +19,7 @@ import (
 	"github.com/vektra/mockery/v3/internal/stackerr"
 	"github.com/vektra/mockery/v3/template"
 	"github.com/xeipuuv/gojsonschema"
+	"golang.org/x/mod/modfile"
 	"golang.org/x/tools/go/packages"
 	"golang.org/x/tools/imports"
 )
@@ -96,13 +97,9 @@ func findPkgPath(dirPath *pathlib.Path) (string, error) {
 	if err != nil {
 		return "", stackerr.NewStackErr(err)
 	}
-	scanner := bufio.NewScanner(bytes.NewReader(fileBytes))
-	// Iterate over each line
-	for scanner.Scan() {
-		if !strings.HasPrefix(scanner.Text(), "module") {
-			continue
-		}
-		moduleName := strings.Split(scanner.Text(), "module ")[1]
+	// modfile.ModulePath understands every valid spelling of the module
+	// directive (tabs, quotes, trailing comments, block form).
+	if moduleName := modfile.ModulePath(fileBytes); moduleName != "" {
 		return pathlib.NewPath(moduleName, pathlib.PathWithSeperator("/")).
 			JoinPath(dirRelative).
 			Clean().
